@@ -477,3 +477,8 @@ Example ex_cache_ok_needed :
   fst (unprotect_offline sym (ex_cache_at 200 31) ex_blob) = Raise OutOfFuel /\ ~ cache_ok (ex_cache_at 200 31) /\
   cache_ok (ex_cache_at 31 31) /\ fst (unprotect_offline sym (ex_cache_at 31 31) ex_blob) = Raise InvalidUnwrap.
 Proof. vm_compute. repeat split; discriminate. Qed.
+(* `wfb` (elements in 0..255: a Python bytes object) cannot be dropped either -- the model's `bytes` is `list Z`, and
+   with a negative "octet" the DH field order is negative, the modular power negative, and to_bytes overflows *)
+Example ex_wfb_needed :
+  compute_kek sym SHA512 STR_DH [] [1] (c_FFCDH_KEY_MAGIC ++ [1; 0; 0; 0] ++ [-5] ++ [2] ++ [3]) = Raise OverflowError.
+Proof. vm_compute. reflexivity. Qed.
